@@ -726,6 +726,18 @@ def finite(stages):
     return not open_cycle
 
 
+def script_finite(stages):
+    """a bounded number of next() calls on an endless cycle is fine unless one next() never returns:
+    keep with a predicate that may reject every element of the cycle"""
+    open_cycle = False
+    for st in stages:
+        if st[0] == "cycle":
+            open_cycle = True
+        elif open_cycle and st[0] == "keep" and st[1] not in ("tru", "bad"):
+            return False
+    return True
+
+
 def mk(origin, src, stages, consumer, wrap=False):
     # every tracing generator of a case gets its own id
     sts = []
@@ -736,14 +748,19 @@ def mk(origin, src, stages, consumer, wrap=False):
             st = [st[0], o]
         sts.append(st)
     c = {"origin": origin, "src": src, "stages": sts, "consumer": consumer}
-    if wrap:
+    traced_any = src["k"] in ("gen", "genf") or any(st[0] in ("chainR", "chainL", "zipR", "zipL") and st[1]["k"] in ("gen", "genf")
+                                                    for st in sts)
+    if wrap and not has_error_potential(c) and not traced_any:
+        # (a finished generator never resumes its pipeline again, while bare adaptors re-pull exhausted inputs)
+        # (a generator is finished after an error, and builds its pipeline at its first resume: only error-free
+        # pipelines are transparent through the wrapping generator)
         c["wrap"] = True
     return c
 
 
 def valid(src, stages, consumer):
     t = typed(src, stages)
-    if t is None or not (finite(stages) or consumer[0] == "script") or not consumer_ok(consumer, t):
+    if t is None or not (finite(stages) or (consumer[0] == "script" and script_finite(stages))) or not consumer_ok(consumer, t):
         return False
     # the generator ids of `other` sources must not collide with the main source's
     return True
@@ -792,7 +809,7 @@ def gen_cases(tier, seed):
                       (["to_list", None], ["nexts", "ffffff"], ["nexts", "fbbfbf"], ["nexts", "bbf"])):
                 if tier == "quick" and c[0] == "nexts" and si % 4 != (1 if c[1] == "ffbfbf" else 0):
                     continue
-                if tier == "quick" and not rng1.chance(3, 4):
+                if tier == "quick" and not rng1.chance(3, 5):
                     continue
                 if valid(s, e, c):
                     cases.append(mk("exh-d1", s, e, c))
@@ -822,7 +839,7 @@ def gen_cases(tier, seed):
         e = expand([st])
         for k in ats:
             s = fsrcs[k]
-            for c in ([x for x in err_consumers if x[0] not in ("max", "position", "fold") and x[1] != "n_n"]
+            for c in ([x for x in err_consumers if x[0] not in ("max", "position", "fold", "last", "sum") and x[1] != "n_n"]
                       if tier == "quick" else consumers):
                 if valid(s, e, c):
                     cases.append(mk("err-d1", s, e, c))
@@ -845,7 +862,9 @@ def gen_cases(tier, seed):
     rng3 = C.Rng(seed * 31337 + 5)
     for st in cstages:
         e = expand([st])
-        for k in range(0, kmax + 1):
+        stateful = st[0] in ("cycle", "cycle+take", "chunks", "windows", "chainR", "chainL", "zipR", "zipL", "intersperse",
+                             "intersperse_with", "peekable", "flatten", "skip", "step")
+        for k in (range(0, kmax + 1) if (stateful or tier != "quick") else (0, 2, 4, 7)):
             if valid(csrc, e, copy_ops(k)) and reversible(csrc, e) is not None:
                 cases.append(mk("copy-d1", csrc, e, copy_ops(k)))
         for k in ((1, 4, 7) if tier == "quick" else range(0, kmax + 1)):
@@ -855,7 +874,7 @@ def gen_cases(tier, seed):
                 cases.append(mk("copy-d1-generator-source", gsrc, e, copy_ops(k)))
     for a in cstages:
         for b in cstages:
-            if tier == "quick" and not rng3.chance(1, 8):
+            if tier == "quick" and not rng3.chance(1, 12):
                 continue
             e = expand([a, b])
             if reversible(csrc, e) is None:
@@ -893,7 +912,7 @@ def gen_cases(tier, seed):
                         cases.append(mk("exh-d2-bidir", bsrc, e, c))
     # random deeper pipelines
     rng = C.Rng(seed)
-    n_rand = 700 if tier == "quick" else 120000
+    n_rand = 500 if tier == "quick" else 120000
     tries = 0
     made = 0
     while made < n_rand and tries < n_rand * 30:
@@ -1279,6 +1298,11 @@ def run(tier, seed):
             for i, v in zip(todo, vals[:len(todo)]):
                 m = model_view(v)
                 im = impl_view(impl[i])
+                if cases[i].get("wrap"):
+                    # the wrapping generator is finished at the pipeline's first None and never resumes it, while the
+                    # bare pipeline would be pulled again: compare the delivered values only
+                    m = (m[0], [e for e in m[1] if e[0] == "out"], m[2])
+                    im = (im[0], [e for e in im[1] if e[0] == "out"], im[2])
                 if m[0] == 2:
                     disagreements.append((i, "model ran out of fuel", m, im))
                 elif m != im:
@@ -1293,6 +1317,49 @@ def run(tier, seed):
     else:
         chk.oblige("corr:model-vs-runtime results and event traces (pulls, callback calls, outputs) identical", False,
                    "model unavailable")
+
+    # ---- a failing / disagreeing case must reproduce: re-run those cases alone (the first pass runs 16 harness
+    #      processes next to 16 coqc on a possibly overloaded machine; a result that does not reproduce is recorded
+    #      as a note, not as a verdict about koto)
+    suspects = sorted({i for i, _ in d_fail if i >= 0} | {d[0] for d in disagreements if d[0] >= 0})
+    unstable = 0
+    if suspects and len(suspects) <= 4000:
+        rc2, again, _o = run_impl(binp, [cases[i] for i in suspects], "recheck")
+        if rc2 == 0 and len(again) == len(suspects):
+            second = dict(zip(suspects, again))
+            keep_d = []
+            for i, fails in d_fail:
+                if i < 0 or "panic" in second[i]:
+                    keep_d.append((i, fails))
+                    continue
+                f2 = d_predicates(cases[i], second[i]) if second[i].get("result") != "ETimeout" else fails
+                if in_c13c(cases[i]):
+                    f2 = [f for f in f2 if not f.startswith("C1")]
+                if f2:
+                    keep_d.append((i, f2))
+                else:
+                    unstable += 1
+            d_fail = keep_d
+            keep_r = []
+            for (i, why, m, im) in disagreements:
+                if i < 0 or "panic" in second[i]:
+                    keep_r.append((i, why, m, im))
+                    continue
+                im2 = impl_view(second[i])
+                if cases[i].get("wrap"):
+                    im2 = (im2[0], [e for e in im2[1] if e[0] == "out"], im2[2])
+                if m == im2:
+                    unstable += 1
+                else:
+                    keep_r.append((i, why, m, im2))
+            if len(keep_r) != len(disagreements):
+                disagreements = keep_r
+                chk.obligations = [o for o in chk.obligations if not o[0].startswith("corr:model-vs-runtime")]
+                chk.oblige("corr:model-vs-runtime results and event traces (pulls, callback calls, outputs) identical",
+                           not disagreements, f"{len(disagreements)} disagreements")
+            if unstable:
+                chk.notes.append(f"{unstable} first-pass failures did not reproduce when the case was re-run alone (machine load)")
+                chk.log(f"{unstable} first-pass failures did not reproduce on re-run; ignored")
 
     # ---- verdict
     def size_of(i):
@@ -1311,7 +1378,7 @@ def run(tier, seed):
         i, fails = d_fail[0]
         c = cases[i] if i >= 0 else {}
         chk.violation("input", {
-            "kind": "input", "case": {k: c.get(k) for k in ("src", "stages", "consumer")},
+            "kind": "input", "case": {k: c.get(k) for k in ("src", "stages", "consumer", "wrap")},
             "script": case_koto(c) if c else "", "impl_says": impl[i] if i >= 0 else None, "predicate_failed": fails,
             "others": len(d_fail) - 1, "how_to_rerun": "./check C13 --replay <this file>"})
         chk.log(f"{len(d_fail)} pipelines violate C13 on the runtime; smallest: "
@@ -1323,7 +1390,7 @@ def run(tier, seed):
             disagreements.sort(key=lambda x: size_of(x[0]))
             i, why, m, im = disagreements[0]
             c = cases[i] if i >= 0 else {}
-            payload.update({"smallest_disagreement": {"case": {k: c.get(k) for k in ("src", "stages", "consumer")},
+            payload.update({"smallest_disagreement": {"case": {k: c.get(k) for k in ("src", "stages", "consumer", "wrap")},
                                                       "script": case_koto(c) if c else why,
                                                       "coq_term": case_coq(c) if c else why,
                                                       "model_says": m, "impl_says": im, "why": why},
